@@ -394,6 +394,39 @@ def r02_11(run, model):
     run.floor("definition tables whose field types are emitted", len(E), 2)
 
 
+NO_QUALIFIER_ITEMS = {
+    "Package": "the package clause names no other package",
+    "Import": "the import declarations are what is being pruned",
+    "Interface": "method signatures of generated interfaces use goml-declared type names (extern types go through their alias)",
+}
+
+
+def r02_12(run, model):
+    run.rule("R02.12", "import pruning sees every place the back end writes a package qualifier: collect_packages_in_item looks into every "
+                       "goast::Item that can carry `pkg.Name` - function and method bodies and the `type X = pkg.Name` alias that "
+                       "gen_type_definition emits for every extern type")
+    DCE = "crates/compiler/src/go/dce.rs"
+    f = model.fn("collect_packages_in_item", DCE)
+    ms = list(S.find(f.body, "Match"))
+    if not ms:
+        raise AnalysisIncomplete("collect_packages_in_item: match on the item not found")
+    seen = 0
+    for arm in ms[0]["arms"]:
+        heads = [S.pat_head(a) for a in S.pat_alts(arm["pat"])]
+        body = arm["body"]
+        does = any(c["k"] in ("Call", "MethodCall") and ((S.callee_name(c) or "").startswith("collect_packages_in_") or
+                   (c["k"] == "MethodCall" and c["method"] == "insert")) for c in S.walk(body))
+        for h in heads:
+            v = h[1][-1] if h[0] == "variant" else "_"
+            seen += 1
+            led = NO_QUALIFIER_ITEMS.get(v)
+            ok = does or led is not None
+            run.ob("R02.12", f"collect_packages_in_item|{v} is searched for package qualifiers", ok, site(DCE, arm["sp"]),
+                   "arm records uses" if does else (f"ignored; ledger: {led}" if led else "arm ignores the item and the ledger has no reason for it"),
+                   witness="extern type Time from \"time\" whose only users are pruned: `type Time = time.Time` stays, `import \"time\"` is removed: undefined: time")
+    run.floor("goast::Item variants examined by the import pruner", seen, 5)
+
+
 def run(run, model):
     run.try_rule(r02_1, model)
     run.try_rule(r02_2, model)
@@ -404,6 +437,7 @@ def run(run, model):
     run.try_rule(r02_9, model)
     run.try_rule(r02_10, model)
     run.try_rule(r02_11, model)
+    run.try_rule(r02_12, model)
     from rules import c08
     run.try_rule(c08.r08_1, model)
     from rules import c07
